@@ -200,7 +200,7 @@ func checkC11(c *Ctx) {
 	// C11.5 map and list stay in step
 	if ev := p.Method("security/cert", "Cache", "evict"); ev != nil {
 		fl := NewFlow(p, ev)
-		ok := false
+		ok, gateAt := false, false
 		eachInstr(ev, func(in ssa.Instruction) {
 			call, isCall := in.(*ssa.Call)
 			if !isCall {
@@ -210,16 +210,14 @@ func checkC11(c *Ctx) {
 				k := fl.K.Key(call.Call.Args[1])
 				if strings.Contains(k, "(*container/list.List).Remove(&p0->hs/security/cert.Cache.accessOrder, (*container/list.List).Back(&p0->hs/security/cert.Cache.accessOrder)") {
 					ok = true
+					// reached only at capacity (early return below capacity, or the removal nested under the test)
+					if hasCmp(fl.At(in), "<=", is("p0->hs/security/cert.Cache.capacity"), func(k string) bool { return strings.HasPrefix(k, "builtin len(p0->hs/security/cert.Cache.entries)") }) {
+						gateAt = true
+					}
 				}
 			}
 		})
-		gate := false
-		for _, r := range returnsOf(ev) {
-			// early return when below capacity
-			if hasCmp(fl.At(r), "<", func(k string) bool { return strings.HasPrefix(k, "builtin len(p0->hs/security/cert.Cache.entries)") }, is("p0->hs/security/cert.Cache.capacity")) {
-				gate = true
-			}
-		}
+		gate := gateAt
 		c.Check(ok && gate, "C11.5", "evict: removes the least recently used key from both structures, only at capacity", p.FuncPos(ev),
 			"delete(entries, accessOrder.Remove(accessOrder.Back())); nothing is evicted while len(entries) < capacity", "same-key removal: "+boolStr(ok)+", capacity gate: "+boolStr(gate))
 	} else {
